@@ -1304,11 +1304,11 @@ impl DatasetIndexInternalExt for Dataset {
             let index = self
                 .index_cache
                 .get_or_insert_with_key(frag_reuse_key, || async move {
-                    let index_meta = self.load_index(&uuid_clone).await?.ok_or_else(|| Error::Index {
-                        message: format!("Index with id {} does not exist", uuid_clone),
-                        location: location!(),
-                    })?;
-                    let index_details = load_frag_reuse_index_details(self, &index_meta).await?;
+                    // Use the metadata we already have: looking it up again goes through
+                    // load_indices, which waits on this very cache entry when it is not
+                    // retained (zero-capacity index cache) and never returns.
+                    let index_details =
+                        load_frag_reuse_index_details(self, &frag_reuse_index_meta).await?;
                     let index =
                         open_frag_reuse_index(frag_reuse_index_meta.uuid, index_details.as_ref()).await?;
 
